@@ -392,7 +392,7 @@ def variant_env(rng, hb: HB, env0, mode):
                 env[n] = [int(x) for x in env[n]] if isinstance(env[n], list) else int(env[n])
     elif mode == "bad":
         n = rng.choice(names)
-        bad = rng.choice([0, -4, -1.5, 1e6])
+        bad = rng.choice([0, -4, -1.5, 3000])
         env[n] = [bad for _ in env[n]] if isinstance(env[n], list) else bad
     return env
 
